@@ -44,6 +44,10 @@ HELPERS = [
     ("var", {}, "x"), ("sum", {}, "x"), ("first", {}, "s"), ("max", {}, "s"), ("mode", {}, "s"), ("count_unique", {"drop_na": True}, "s"),
     # an integer column holding values that float64 cannot represent: summaries of it are those integers, exactly
     ("min", {}, "g"), ("max", {}, "g"), ("first", {}, "g"), ("nth", {"index": -1}, "g"), ("mode", {}, "g"),
+    # a float column of large values that lie close together (a variance computed as mean(x*x) - mean(x)**2 cancels
+    # there), and one holding infinities next to a missing value
+    ("var", {}, "t"), ("std", {}, "t"), ("mean", {}, "t"), ("sum", {}, "t"), ("var", {"ddof": 1}, "t"),
+    ("sum", {}, "hh"), ("mean", {}, "hh"), ("max", {}, "hh"), ("min", {}, "hh"), ("sum", {"drop_na": False}, "hh"),
 ]
 
 
@@ -86,7 +90,9 @@ def payload_cols(n):
             ["s", "str", [sa[(i + 1) % 5] for i in range(n)]],
             ["b", "b1", [i % 3 != 1 for i in range(n)]],
             ["g", "i8", [9007199254740993 + 2 * ((i * 3) % 5) for i in range(n)]],
-            ["_u", "i8", [7 * i + 1 for i in range(n)]]]   # a column whose name starts with an underscore
+            ["_u", "i8", [7 * i + 1 for i in range(n)]],   # a column whose name starts with an underscore
+            ["t", "f8", [["1700000000.25", "1700000001.5", "1700000003.0", "1700000000.5", "1700000007.75"][i % 5] for i in range(n)]],
+            ["hh", "f8", [[None, "inf", "1.0", "-inf", "inf"][(i * 2) % 5] for i in range(n)]]]
 
 
 def group_rows(keycells, n):
@@ -193,6 +199,14 @@ def check_case(case, rec):
     # second phase: the same frame object with a key cell edited in place must be grouped as it is now
     k0 = by[0]
     if case.get("poke") and n >= 2 and not V.same_value(cells[k0][0], cells[k0][n - 1]):
+        old = di.USE_NUMBA
+        di.USE_NUMBA = False
+        try:
+            d.group_by(*by).aggregate(n=di.count(), m=di.max("id"))   # grouped and aggregated BEFORE the edit; the mark stays
+        except Exception:
+            pass
+        finally:
+            di.USE_NUMBA = old
         col = d[k0]
         col[0] = col[n - 1]
         cells2 = dict(cells)
@@ -202,10 +216,11 @@ def check_case(case, rec):
         old = di.USE_NUMBA
         di.USE_NUMBA = False
         try:
-            for op in ("aggregate-core", "count"):
+            for op in ("aggregate-still-grouped", "aggregate-core", "count"):
                 rec.case((before, tuple(by), op, "poked"), nontrivial)
                 rec.trans()
-                d._group_colnames = ()
+                if op != "aggregate-still-grouped":
+                    d._group_colnames = ()
                 try:
                     msg = run_op(d, op, by, n, groups2, cells2, rec)
                 except Exception as e:
@@ -231,8 +246,10 @@ def check_keys(out, by, groups):
 
 
 def run_op(d, op, by, n, groups, cells, rec):
-    if op == "aggregate-core":
-        out = d.group_by(*by).aggregate(n=di.count(), dg=digest_fn, m=lambda x: x.nrow, u=lambda x: int(x._u[0]) - 7 * int(x.id[0]))
+    if op in ("aggregate-core", "aggregate-still-grouped"):
+        # (still-grouped: the frame was grouped - and aggregated - earlier and has been edited element-wise since;
+        #  group_by is not called again, the mark is still on the object)
+        out = (d if op == "aggregate-still-grouped" else d.group_by(*by)).aggregate(n=di.count(), dg=digest_fn, m=lambda x: x.nrow, u=lambda x: int(x._u[0]) - 7 * int(x.id[0]))
         rec.state(V.frame_key(out))
         if list(out.keys()) != list(by) + ["n", "dg", "m", "u"]:
             return f"columns {list(out.keys())}"
@@ -322,6 +339,12 @@ def run_op(d, op, by, n, groups, cells, rec):
             return f"after count() and split() on the grouped frame, modify is no longer group-wise: m={ms}, expected {[of[i] for i in range(n)]}"
         if V.cells(agg["n"]) != [len(gr[1]) for gr in groups] or V.cells(c["n"]) != [len(gr[1]) for gr in groups]:
             return f"after count() on the grouped frame: aggregate n={V.cells(agg['n'])}, count n={V.cells(c['n'])}, expected {[len(gr[1]) for gr in groups]}"
+        # ... and aggregate / modify leave the mark alone as well: what follows them is still group-wise
+        out2 = g.modify(m=lambda x: x.nrow)
+        agg2 = g.aggregate(n=di.count())
+        if V.cells(out2["m"]) != ms or V.cells(agg2["n"]) != [len(gr[1]) for gr in groups]:
+            return (f"after aggregate() and modify() on the grouped frame, a second modify gives m={V.cells(out2['m'])} (expected {ms}) "
+                    f"and a second aggregate n={V.cells(agg2['n'])} (expected {[len(gr[1]) for gr in groups]})")
         rec.outcome(("count-then-modify", tuple(ms)))
         return None
     if op == "aggregate-mutating":
